@@ -194,14 +194,14 @@ class WorkflowState(object):
 
         entry = {
             "id": task_id,
-            "ctxs": {"in": ctxs},
+            "ctxs": {"in": json_util.deepcopy(ctxs)},
             "route": route,
-            "prev": prev if isinstance(prev, dict) else {},
+            "prev": json_util.deepcopy(prev) if isinstance(prev, dict) else {},
             "ready": ready,
         }
 
         if retry:
-            entry["retry"] = retry
+            entry["retry"] = json_util.deepcopy(retry)
 
         self.staged.append(entry)
 
